@@ -953,7 +953,9 @@ def g_walk(R, tier):
         m.run(m.exec_block(pre, fr))
         return fr
 
-    cases = ["exhausted", "function", "lambda", "class"] + (["comprehension"] if sys.version_info < (3, 12) else [])
+    # (before 3.12 a comprehension is a function table named listcomp/... WITH the implicit
+    #  parameter .0; a user function that merely has such a name is an ordinary function)
+    cases = ["exhausted", "function", "lambda", "class", "function-named-listcomp"] + (["comprehension"] if sys.version_info < (3, 12) else [])
     for case in cases:
         def run(c):
             made = []
@@ -972,7 +974,7 @@ def g_walk(R, tier):
             # arbitrary state: lower part opaque, one frame on top
             import symtable as ST
             kids = [Opaque("grandchild", object)]
-            name = {"function": "f", "lambda": "lambda", "class": "C", "comprehension": "listcomp"}.get(case, "f")
+            name = {"function": "f", "lambda": "lambda", "class": "C", "comprehension": "listcomp", "function-named-listcomp": "listcomp"}.get(case, "f")
             params = (".0",) if case == "comprehension" else ()
             cls = ST.Class if case == "class" else ST.Function
             child = Opaque("child", None, cands=frozenset([cls]), methods=dict(
@@ -1112,6 +1114,42 @@ def g_globals_from_nested_scopes(R, tier):
                 f"{len(paths)} flag valuations; first mismatch: {bad[:1]}", replay=dict(kind="scope"))
 
 
+def g_own_namespace_selection(R, tier):
+    """a def / class statement picks, among the namespaces nested in the current one, the one
+    created for ITS symbol table: same first line AND same name (siblings may share either);
+    no such namespace: an error, never somebody else's namespace"""
+    from suites import c07
+    pn = CL.pn()
+
+    def decoy(tag, lineno, name, kind):
+        symt = Opaque((tag, "symt"), object, methods=dict(get_lineno=lambda o: lineno, get_name=lambda o: name))
+        return CL.mk_nsp(tag, kinds=(kind,), symt=symt)
+    for what, cls, kind in (("def", pn.PendingFunctionDef, "function"), ("class", pn.PendingClassDef, "class")):
+        for present in (True, False):
+            def run(c):
+                m = Machine(stubs=stubs())
+                if what == "def":
+                    node = ast.FunctionDef(name="f", args=ast.arguments(posonlyargs=[], args=[], kwonlyargs=[], kw_defaults=[], defaults=[]), body=[], decorator_list=[],
+                                           returns=None, lineno=7, col_offset=0)
+                    match = c07.mk_function_nsp(node, tag="match")
+                else:
+                    node = ast.ClassDef(name="f", bases=[], keywords=[], body=[], decorator_list=[], lineno=7, col_offset=0)
+                    symt = Opaque(("match", "symt"), object, methods=dict(get_lineno=lambda o: 7, get_name=lambda o: "f"))
+                    match = CL.mk_nsp("match", kinds=("class",), symt=symt, class_member_dict_expr=ast.Name(id=Hole("clsdict", "ident", fresh=True)))
+                sibs = [decoy("same-name-other-line", 3, "f", kind), decoy("same-line-other-name", 7, "g", kind)] + ([match] if present else []) + [decoy("later", 9, "f", kind)]
+                outer = CL.mk_nsp("outer", inner_nsp=sibs)
+                self_ = CL.mk_pending(cls, node, outer, CL.mk_global(), m=m)
+                return dict(self_=self_, match=match)
+            for p in explore(run):
+                nm = f"pending_nodes.{cls.__name__}.__init__[{'own-namespace-among-siblings' if present else 'no-own-namespace'}]"
+                if present:
+                    ok = p.kind == "ok" and p.value["self_"].internal_nsp is p.value["match"]
+                    R.check(f"{nm}/picks-the-namespace-of-its-own-symbol-table", ok, repr(p.value if p.kind != "ok" else p.value["self_"].internal_nsp),
+                            replay=dict(kind="src", src="def f():\n    return 1\nif f():\n    def f(): return 2\n    def g(): return 3\nclass f2:\n    v = 1\nclass f2:\n    v = 2\nr = (f(), g(), f2.v)\n", expect="same-globals"))
+                else:
+                    R.check(f"{nm}/raises-instead-of-taking-a-sibling", p.kind == "raise" and isinstance(p.value, RuntimeError), repr(p.value))
+
+
 def g_small_contracts(R, tier):
     """functions no other group runs (found by tools/harness_coverage.py)"""
     ns = NS()
@@ -1172,7 +1210,7 @@ def g_for_target(R, tier):
                    "def f():\n    for i in range(3):\n        pass\n    def g():\n        return i\n    return i, g()\nr = f()\nfor k in range(2):\n    pass\nlast = k\n")
 
 
-GROUPS = {"globals_from_nested_scopes": g_globals_from_nested_scopes, "small_contracts": g_small_contracts, "nested_binders": g_nested_binders, "for_target": g_for_target, "namespace_isolation": g_namespace_isolation, "birthplace": g_birthplace, "method_super": g_method_super, "access_function": g_access_function, "access_class": g_access_class, "access_global": g_access_global,
+GROUPS = {"own_namespace_selection": g_own_namespace_selection, "globals_from_nested_scopes": g_globals_from_nested_scopes, "small_contracts": g_small_contracts, "nested_binders": g_nested_binders, "for_target": g_for_target, "namespace_isolation": g_namespace_isolation, "birthplace": g_birthplace, "method_super": g_method_super, "access_function": g_access_function, "access_class": g_access_class, "access_global": g_access_global,
           "transform_dispatch": g_transform_dispatch, "transform_generic": g_transform_generic, "transform_names": g_transform_names,
           "transform_comp": g_transform_comp, "walk": g_walk, "seeding": g_seeding, "canary": c13.g_canary}
 
